@@ -201,6 +201,7 @@ struct Explorer {
     // big skewed dataset (4) as the initial content of the target: assignments must replace every part of the succinct structures
     void explore_big() {
         Index *r4 = Ad::make(4); std::string ref4 = Ad::digest(*r4, 4, run, cn); delete r4;
+        for (auto h : std::vector<std::vector<int>>{{CC, QT}, {CC, DS, QT}, {MC, QT}, {MC, DS, QT}}) run_history(4, 0, false, h, ref4, ref4);   // the big index as the source
         for (int d0 : {0, 1}) {
             Index *r0 = Ad::make(d0); std::string ref0 = Ad::digest(*r0, d0, run, cn); delete r0;
             for (auto h : std::vector<std::vector<int>>{{CA, QT}, {MA, QT}, {CA, DS, QT}, {MA, DS, QT}, {QT, CA, QT}}) {
